@@ -12,6 +12,7 @@ import (
 	"reflect"
 	"sort"
 	"strconv"
+	"sync"
 	"time"
 )
 
@@ -259,6 +260,62 @@ func RunWithEnv(f func(), env func() bool) bool {
 					}
 					return false
 				case <-time.After(300 * time.Millisecond):
+					return true
+				}
+			}
+		}
+	}
+}
+
+// RunGoroutines runs several goroutine bodies against a scripted environment. Under the
+// executor the bodies are scheduled cooperatively (one runs until it blocks on a channel
+// operation, then the next); when all of them are blocked env gets a turn and reports whether
+// it did something; the call returns once env has nothing left to do, reporting whether some
+// body is still blocked. Natively the bodies are real goroutines and "all blocked" is
+// approximated by 60 ms of quiet.
+func RunGoroutines(env func() bool, bodies ...func()) bool {
+	var wg sync.WaitGroup
+	var mu sync.Mutex
+	var pan any
+	for _, f := range bodies {
+		wg.Add(1)
+		go func(f func()) {
+			defer func() {
+				if r := recover(); r != nil {
+					mu.Lock()
+					pan = r
+					mu.Unlock()
+				}
+				wg.Done()
+			}()
+			f()
+		}(f)
+	}
+	done := make(chan struct{})
+	go func() { wg.Wait(); close(done) }()
+	finish := func() bool {
+		mu.Lock()
+		defer mu.Unlock()
+		if pan != nil {
+			panic(pan)
+		}
+		return false
+	}
+	for {
+		select {
+		case <-done:
+			return finish()
+		case <-time.After(60 * time.Millisecond):
+			if !env() {
+				select {
+				case <-done:
+					return finish()
+				case <-time.After(300 * time.Millisecond):
+					mu.Lock()
+					defer mu.Unlock()
+					if pan != nil {
+						panic(pan)
+					}
 					return true
 				}
 			}
